@@ -198,7 +198,8 @@ func cmdGate(args []string) int {
 			case x < 82 && *mode != "racy":
 				time.Sleep(1100 * time.Millisecond) // let the timeout expire
 				rec.emit("sleep", "A", 0, nil, "", "", copyState(gA.GetState()))
-			case x < 92 && *mode == "restore" && !restored && atomic.LoadInt64(&firesA) == 0:
+			case x < 92 && *mode == "restore" && !restored && (atomic.LoadInt64(&firesA) == 0 || r.Intn(2) == 0):
+				// (also from a state saved after the set-up has fired: the copy, like the original, must not fire it again)
 				// rebuild a second gate from the saved state of the first
 				pause()
 				saved := copyState(gA.GetState())
